@@ -28,3 +28,11 @@ package produce
 //@   layout v8 Partition int32, ErrorCode int16, BaseOffset int64, LogAppendTime int64, LogStartOffset int64, RecordErrors []ResponseError, ErrorMessage string?
 //@ wire ResponseError
 //@   layout v8 BatchIndex int32, BatchIndexErrorMessage string?
+
+//@ property C12
+// Routing (C12): which of the protocol message interfaces the request satisfies decides where the Transport sends it
+// (connPool.sendRequest tests BrokerMessage, then GroupMessage, then TransactionalMessage).
+//@ wire Request
+//@   implements protocol.BrokerMessage
+//@   notimplements protocol.GroupMessage
+//@   notimplements protocol.TransactionalMessage
